@@ -453,6 +453,9 @@ class Monitor:
             org = self.fp.get('invalid value') or self.fp.get('divide by zero') or 'unknown'
             if org == 'node._evaluate' and getattr(self, 'nan_op', None):
                 org = '%s:%s' % (org, self.nan_op)          # the tree operator that first produced a non-finite value
+            if org == 'rpso._update_velocity' and float(np.max(self.hi - self.lo)) < 3e5:
+                # recorded finding (h) needs a velocity component of the order of LIGHT_SPEED = 3e5, i.e. a box at least that wide
+                org += ':box-narrower-than-light-speed'
             return '%s@%s' % (base, org)
         return base
 
